@@ -268,8 +268,7 @@ impl Prop for Sessions {
                 break;
             }
             // second reference: "keeps its variables" - a line that failed to evaluate leaves no trace, so the same
-            // history WITHOUT the lines that failed (other than first-time assignments, whose effect on a never-bound
-            // name the statement does not define) must give the same results for the text just set
+            // history WITHOUT the lines that failed must give the same results for the text just set
             // (a line ending in a lone CR cannot be joined to the next one with LF without forming a CRLF separator)
             if !clean[s].iter().chain(lines.iter()).any(|l| l.ends_with('\r')) {
                 let mut kept: Vec<String> = clean[s].clone();
@@ -295,8 +294,8 @@ impl Prop for Sessions {
                 for (l, slot) in lines.iter().zip(out.slots.iter()) {
                     let lhs = l.split_once('=').map(|(a, _)| a.trim().to_lowercase());
                     match (slot, lhs) {
-                        (Slot::Err(_), None) => dropped_failed += 1,
-                        (Slot::Err(_), Some(name)) if bound[s].contains(&name) => dropped_failed += 1,
+                        // a failed line - also a failed first-time assignment (F32) - leaves no trace
+                        (Slot::Err(_), _) => dropped_failed += 1,
                         (Slot::Ok { .. }, Some(name)) => {
                             bound[s].insert(name);
                             clean[s].push(l.clone());
@@ -386,7 +385,7 @@ pub fn regressions() -> Vec<SessionHistory> {
 }
 
 pub fn run(ctx: &Ctx) {
-    ctx.rule("(a) calculator histories: a freshly built long-lived calculator evaluates 1-30 texts drawn from all other generators plus token soup (failing and rule-heavy lines included), then a probe text; in half of the histories the calculator is switched to other configurations through the public setters in between and back before the probe; (a') related histories: the texts before the probe are variants of the probe itself - same sentence, units, currencies, zones and names, operands replaced by 0, 1, 2, 0.5, 12, 31, 60, 100, 1000, 1e9 - mixed with unrelated texts; oracle: status, every slot (None / error text / output / AST value) and the highlight tokens of the probe equal those on a fresh calculator of the same configuration that evaluates only the probe; (b) session histories over 1-3 sessions sharing one calculator: set_text(text of 1-5 lines incl. empty lines, assignments, CRLF; about one op in six sets the session's previous text again, unchanged or with a trailing blank / line separator) + execute_session; oracle: status true, slot count = line count of the text just set, slots = the last |T| slots of a one-shot execute of the concatenation of all texts that session has executed (fresh calculator, fresh session), and also of that concatenation WITHOUT the lines that failed to evaluate (a failed line leaves no trace; failed first-time assignments are kept); non-trivial = (a) history >= 3 texts and the probe yields a value, (b) texts of different line counts on one session and a variable from an earlier text used in a later one");
+    ctx.rule("(a) calculator histories: a freshly built long-lived calculator evaluates 1-30 texts drawn from all other generators plus token soup (failing and rule-heavy lines included), then a probe text; in half of the histories the calculator is switched to other configurations through the public setters in between and back before the probe; (a') related histories: the texts before the probe are variants of the probe itself - same sentence, units, currencies, zones and names, operands replaced by 0, 1, 2, 0.5, 12, 31, 60, 100, 1000, 1e9 - mixed with unrelated texts; oracle: status, every slot (None / error text / output / AST value) and the highlight tokens of the probe equal those on a fresh calculator of the same configuration that evaluates only the probe; (b) session histories over 1-3 sessions sharing one calculator: set_text(text of 1-5 lines incl. empty lines, assignments, CRLF; about one op in six sets the session's previous text again, unchanged or with a trailing blank / line separator) + execute_session; oracle: status true, slot count = line count of the text just set, slots = the last |T| slots of a one-shot execute of the concatenation of all texts that session has executed (fresh calculator, fresh session), and also of that concatenation WITHOUT the lines that failed to evaluate (a failed line leaves no trace); non-trivial = (a) history >= 3 texts and the probe yields a value, (b) texts of different line counts on one session and a variable from an earlier text used in a later one");
     ctx.assume("lines mentioning now are not generated; execute_session without a preceding set_text is exercised only at the end of a session's life (no assertion beyond not panicking)");
     ctx.run_table(&Sessions, "regressions", regressions(), false);
     let (h, s) = match ctx.tier {
